@@ -139,6 +139,15 @@ fn write_token_exact(token: &Token, out: &mut String) {
         } if i.unsigned_abs() >= 1_000_000 => Some((*has_sign, *i)),
         _ => None,
     };
+    // (beyond the i32 range `int_value` is saturated: it is not the value of the token)
+    let exact_int = exact_int.filter(|(_, i)| {
+        let value = match token {
+            Token::Number { value, .. } | Token::Dimension { value, .. } => *value,
+            Token::Percentage { unit_value, .. } => *unit_value * 100.,
+            _ => return false,
+        };
+        (*i as f32 - value).abs() <= value.abs() * 4. * f32::EPSILON
+    });
     if let Some((has_sign, i)) = exact_int {
         let digits_end = out[start..]
             .char_indices()
